@@ -326,10 +326,22 @@ func NewWriter(w io.Writer, v Version, opt *WriterOptions) (*Writer, error) {
 
 // Close closes the Writer, flushing any unwritten data to the underlying
 // io.Writer.
-func (w *Writer) Close() error {
+func (w *Writer) Close() (err error) {
 	if w.inStream {
 		return errors.New("Close() while stream is open")
 	}
+
+	// Close allocates object numbers itself (catalog, Info, cross-reference
+	// stream).  If none is left — the largest number has been used by the
+	// caller — this is an error of this call, not a panic.
+	defer func() {
+		if r := recover(); r != nil {
+			if r != any(errObjectNumberOverflow) {
+				panic(r)
+			}
+			err = fmt.Errorf("Writer.Close: %w", errObjectNumberOverflow)
+		}
+	}()
 
 	trailer := w.meta.Trailer.Clone()
 
@@ -426,12 +438,14 @@ func (w *Writer) GetOptions() OutputOptions {
 // reached, since the writer cannot mint a valid further reference.
 func (w *Writer) Alloc() Reference {
 	if w.nextRef >= maxXRefSize {
-		panic("pdf.Writer: object-number overflow")
+		panic(errObjectNumberOverflow)
 	}
 	res := NewReference(w.nextRef, 0)
 	w.nextRef++
 	return res
 }
+
+var errObjectNumberOverflow = errors.New("pdf.Writer: object-number overflow")
 
 // Get returns the object with the given reference from the PDF file.
 //
